@@ -6,6 +6,7 @@ from harness import core, gen, project_stream
 n = int(sys.argv[1]); seed = int(sys.argv[2])
 kw = {}
 for a in sys.argv[3:]:
+    if a.startswith("show="): continue
     k, v = a.split("=")
     kw[k] = eval(v)
 rng = random.Random(seed)
@@ -14,24 +15,31 @@ asts = [gen.gen_project(rng, k) for _ in range(n)]
 chk = core.Check("CAMPAIGN", "quick", seed)
 res = project_stream.run_projects(chk, asts)
 chk.impl.close()
+import re
 feat = collections.Counter()
-nd = 0; no = collections.Counter(); crashes = 0; skipped = 0
-shown = 0
+cats = collections.OrderedDict()
+skipped = 0
+def norm(m):
+    m = re.sub(r"\d+(\.\d+)?", "N", m)
+    m = re.sub(r"\b[a-z]+N(\.[a-zN]+)*\b", "T", m)
+    return m[:110]
 for r in res:
     feat.update(gen.features(r["ast"]))
     if r["obs"] and "error" in r["obs"]:
-        crashes += 1
-        if shown < 6: print("ERROR", r["obs"]); print(r["text"]); shown += 1
-        continue
+        cats.setdefault("ERROR " + str(r["obs"])[:100], []).append(r); continue
     if r["skipped"]: skipped += 1; continue
-    if r["diffs"]:
-        nd += 1
-        if shown < 6:
-            print("DIFF", r["diffs"][:4]); print(r["text"]); shown += 1
+    for d in r["diffs"][:1]:
+        cats.setdefault("DIFF " + norm(d), []).append(r)
     for kk, v in r["oracle"].items():
-        no[kk] += 1
-        if shown < 6:
-            print("ORACLE", kk, v[:2]); print(r["text"]); shown += 1
-print("projects", n, "disagree", nd, "oracle", dict(no), "errors", crashes, "skipped", skipped)
+        cats.setdefault("ORACLE " + kk + " " + norm(v[0]), []).append(r)
+for c, rs in cats.items():
+    print(f"== {len(rs):4d} x {c}")
+show = [a for a in sys.argv[3:] if a.startswith("show=")]
+for c, rs in cats.items():
+    if show and not any(x[5:] in c for x in show): continue
+    if not show and c.startswith("ORACLE C03") and "team task" in c: continue
+    r = min(rs, key=lambda r: len(r["text"]))
+    print("\n#### ", c); print(r["diffs"][:4], {k: v[:2] for k, v in r["oracle"].items()}); print(r["text"])
+print("projects", n, "skipped", skipped)
 print(dict(feat))
 json.dump([{"text": r["text"], "diffs": r["diffs"], "oracle": r["oracle"], "ast": r["ast"]} for r in res if r["diffs"] or r["oracle"] or (r["obs"] and "error" in r["obs"])], open("/tmp/campaign.json", "w"))
